@@ -1473,12 +1473,23 @@ def run(ctx):
         ctx.exhaustive = True
         keytable = r.tagged('KEYS')[0]
         tau_rows = r.tagged('TAU')[0]
-        ctx.expect_refuted('numpy2-valueerror-not-caught', 'MC_Output', 'MC_Output_numpy2.cfg', 'RoundTrip')
-        ctx.expect_refuted('size-by-identity', 'MC_Output', 'MC_Output_sizeident.cfg', 'SizeArith')
-        ctx.check_spec('writer-lemma', 'MC_OutputWr', 'MC_OutputWr_sufficient.cfg')
-        ctx.expect_refuted('writer-lemma-any-values', 'MC_OutputWr', 'MC_OutputWr_any.cfg', 'Exposes')
-        # a sweep without the 'falsy' input class cannot see a write() that tests `if value:` (TLC's counterexample: identity map, guard "truthy")
-        ctx.expect_refuted('writer-lemma-no-falsy-class', 'MC_OutputWr', 'MC_OutputWr_nofalsy.cfg', 'SweepExposes')
+        # five independent small TLC runs side by side (bookkeeping in this thread): label, module, cfg, invariant TLC must refute (None: must hold)
+        jobs = [('numpy2-valueerror-not-caught', 'MC_Output', 'MC_Output_numpy2.cfg', 'RoundTrip'),
+                ('size-by-identity', 'MC_Output', 'MC_Output_sizeident.cfg', 'SizeArith'),
+                ('writer-lemma', 'MC_OutputWr', 'MC_OutputWr_sufficient.cfg', None),
+                ('writer-lemma-any-values', 'MC_OutputWr', 'MC_OutputWr_any.cfg', 'Exposes'),
+                # a sweep without the 'falsy' input class cannot see a write() that tests `if value:` (TLC's counterexample: identity map, guard "truthy")
+                ('writer-lemma-no-falsy-class', 'MC_OutputWr', 'MC_OutputWr_nofalsy.cfg', 'SweepExposes')]
+        from concurrent.futures import ThreadPoolExecutor
+        with ThreadPoolExecutor(len(jobs)) as ex:
+            futs = [ex.submit(run_tlc, m, c, allow_violation=True, workers=2) for _, m, c, _ in jobs]
+            for (label, m, c, inv), fut in zip(jobs, futs):
+                res = fut.result()
+                ctx.add_tlc(label, res, counts=inv is None)
+                if res.violated != inv:
+                    raise Machinery('%s/%s: expected TLC to %s, got %r\n%s' % (m, c, 'refute ' + inv if inv else 'find no violation', res.violated, res.error_trace if res.violated else ''))
+                if inv is None and res.distinct == 0:
+                    raise Machinery('TLC reported 0 states for %s/%s' % (m, c))
         lap('design')
         # 2. binding A: exported dictionaries through HDF5Output / h5py
         n = 0
